@@ -196,12 +196,16 @@ def k_unary_app(ctx):
     return K
 
 
+KERNELS = [k_binary_arith, k_unary_app]
+
+
+def families(ctx):
+    return [(mk.__name__, (lambda mk=mk: run_kernel(ctx, mk(ctx)))) for mk in KERNELS]
+
+
 def run(ctx):
-    for mk in (k_binary_arith, k_unary_app):
-        def go(mk=mk):
-            K = mk(ctx)
-            run_kernel(ctx, K)
-        ctx.guarded(mk.__name__, go)
+    for name, fn in families(ctx):
+        ctx.guarded(name, fn)
     ctx.bounds += ['operand payloads: every i64; operand kinds: all 7 Cedar value kinds; no unrolling (loop-free kernels)']
     ctx.assumptions += ['EvaluationError constructors (type_error_single) and derive-generated From<..> for EvaluationError are opaque logged constructors',
                         'symbolic Value = opaque struct with lazily created ValueKind / Literal discriminants and payloads',
